@@ -64,6 +64,19 @@ NOTES = {  # seed -> (after, what was strengthened)
  "C16e_m1": ("caught (C16 stage A docstring_literals_documented + stage C)", "regenerated table of every interpolation inside a triple-quoted template literal; hostile descriptions under docstrings_on_attributes off / on"),
  "C16e_m2": ("caught (C16 stage A all_writers_encoded + stage C)", "regenerated table of every file writer and whether it passes file_encoding; every flavour x {cp1252, utf-16} against the utf-8 generation"),
  "C20e_m2": ("caught (C20 oracle)", "a referenced component that FAILS after being referenced, in every reference position, by-reference vs inline, with healthy twins"),
+ "C01f_m1": ("caught (C01 import)", "path-item-level parameters whose inline schema creates a class (enum / int enum)"),
+ "C01f_m2": ("caught (C01 import / name resolution)", "allOf child redefining an inherited inline-enum property with a superset enum carrying a default"),
+ "C02f_m1": ("caught (C02 correspondence + oracle)", "enum values containing double / single quotes and control characters, as property and as array item"),
+ "C02f_m2": ("caught (C02 oracle)", "optional unions WITH a default whose members all need construction, key absent"),
+ "C03f_m2": ("caught (C03 oracle)", "client life-cycle stage tracks COOKIES: constructor cookies and with_cookies additions (which also reach the original's live httpx clients) for both variants"),
+ "C04f_m1": ("caught (C04 oracle + response plan)", "one component response with an inline object schema shared by two operations at the same status"),
+ "C04f_m2": ("caught (C04 correspondence + oracle)", "response unions whose scalar member precedes / follows a model member, scalar and object bodies"),
+ "C06f_m1": ("caught (C06 stage A gen_detail_none_safe + stage C)", "regenerated fact: every read of .detail tolerates None; 301 documents planting detail-less failing schemas at every position where an error is later formatted"),
+ "C07f_m1": ("caught (C07 gen_case correspondence + census; C03 oracle)", "census matches each declared request media type with its own Content-Type literal in the GENERATED function; gen_case: ordered body / status branches of the generated module == the model's parse_operation; same-kind media-type documents"),
+ "C10f_m1": ("caught (C10 type correspondence + oracle)", "3.0 nullable next to an untyped two-member allOf"),
+ "C10f_m2": ("caught (C10 oracle)", "operations whose query parameters are ALL required, a nullable one given None"),
+ "C11f_m1": ("caught (C11 mypy)", "mypy on the builtin-names document (every builtin as a property next to union properties, whose decoders annotate `data: object`)"),
+ "C11f_m2": ("caught (C11 mypy; C01 name resolution)", "mypy documents chosen by label (leaves, models, unions, triples, allof incl. the enum-redefining child)"),
  "C19c_m1": ("caught (C19 oracle + hook_cwd correspondence)", "post hooks: a marker hook that rewrites *.py below its working directory, all four flavours, with sentinel files around the output directory; Fs.hook_cwd"),
  "C10_m1": ("caught (C10 oracle, C02 correspondence)", "falsy-but-present values (0, \"\", false, {}, []) in the C02 atlas and the C10 grid"),
  "C10_m2": ("caught (C10 oracle; C15 caught it at once)", "allOf-refined required properties in the C10 grid"),
@@ -95,7 +108,7 @@ Each change was produced by a fresh sub-agent that saw only the property text an
 was re-verified by the coordinator (demo exits 0 on the clean tree and 1 with the patch; the pinned suite has the same pass/fail
 set with the patch). Seeds `C??b_*` are a SECOND generation for the same property: their authors were told which earlier changes
 to avoid, so they measure how the strengthened checks generalise; seeds `C??c_*` are a THIRD generation (told to avoid the earlier
-four) and `C??d_*` a FOURTH and `C??e_*` a FIFTH (told to avoid all earlier ones). "first run" = the property's own quick check as it stood when
+four) and `C??d_*` a FOURTH `C??e_*` a FIFTH and `C??f_*` a SIXTH (each told to avoid all earlier ones). "first run" = the property's own quick check as it stood when
 the change arrived ({c} of {n} caught); every miss led to a strengthening of generators, oracles or models, never to a special case
 for the seed. After strengthening all {n} are caught by the property's own quick check (re-tested with harness/seedtest_iso.py on isolated copies).
 
